@@ -207,7 +207,8 @@ func (c15) Eval(c *Chooser, env *Env) *Outcome {
 	root := roots[c.Int("world.root", len(roots))]
 	disk.MkdirAll(root + "/.git")
 	disk.MkdirAll(root + "/.github/workflows")
-	if root == "/w/app/vendor/sub" && c.Bool("world.enclosing") {
+	enclosing := root == "/w/app/vendor/sub" && c.Bool("world.enclosing")
+	if enclosing {
 		disk.MkdirAll("/w/app/.git")
 		disk.Put("/w/app/.github/workflows/outer.yml", []byte("on: push\njobs:\n  o:\n    runs-on: ubuntu-latest\n    steps:\n      - run: echo\n"))
 		disk.Put("/w/app/.github/actionlint.yaml", []byte("paths:\n  '**/*':\n    ignore: ['.+']\n"))
@@ -333,6 +334,15 @@ func (c15) Eval(c *Chooser, env *Env) *Outcome {
 		lf := append([]string{}, lintFiles[:at]...)
 		lf = append(lf, sib+"/.github/workflows/a0.yml")
 		lintFiles = append(lf, lintFiles[at:]...)
+	}
+	// a file of the enclosing repository (clean, and everything in it ignored by that repository's
+	// own configuration) in the same invocation: the files of the nested repository keep their own
+	if enclosing && mode == 0 && c.Bool("world.outerarg") {
+		at := c.Int("world.outerpos", len(lintFiles)+1)
+		lf := append([]string{}, lintFiles[:at]...)
+		lf = append(lf, "/w/app/.github/workflows/outer.yml")
+		lintFiles = append(lf, lintFiles[at:]...)
+		o.probe("enclosing_repository_file_in_the_same_run", 1)
 	}
 	if cfg != "" && sib == "" && !looseFirst && !sibArg && mode != 5 && mode != 3 && c.Weighted("world.cfgviaflag", 1, 6) {
 		// the same configuration given with -config-file instead of lying in the repository
